@@ -441,20 +441,20 @@ Proof.
     destruct (addr_eqb x a) eqn:E; [|tauto]. apply addr_eqb_spec in E. subst x. rewrite Hat. cbn. tauto.
   - intros x. rewrite conn_at_aset. destruct (addr_eqb x a); [cbn; reflexivity|apply Igid0].
   - intros k x. cbn [laddrs]. rewrite conn_at_aset. unfold listen_key at 1. cbn [c_lport].
-    destruct (snd a =? 0) eqn:E0.
+    destruct (snd a mod 65536 =? 0) eqn:E0.
     + cbn [laddrs_add]. rewrite Ila. destruct (addr_eqb x a) eqn:E; [|tauto].
       apply addr_eqb_spec in E. subst x. rewrite Hat. cbn [olisten]. unfold listen_key. cbn [c_lport]. rewrite E0. tauto.
     + rewrite getl_laddrs_add. destruct (addr_eqb x a) eqn:E.
       * apply addr_eqb_spec in E. subst x. cbn [olisten]. unfold listen_key. cbn [c_lport]. rewrite E0. cbn [fst].
-        destruct (addr_eqb k (fst a, snd a)) eqn:Ek.
+        destruct (addr_eqb k (fst a, snd a mod 65536)) eqn:Ek.
         -- apply addr_eqb_spec in Ek. subst k. rewrite in_app_iff. cbn. tauto.
         -- apply addr_eqb_neq in Ek. rewrite Ila, Hat. cbn. split; [discriminate|]. intros Hk. congruence.
-      * apply addr_eqb_neq in E. destruct (addr_eqb k (fst a, snd a)) eqn:Ek.
+      * apply addr_eqb_neq in E. destruct (addr_eqb k (fst a, snd a mod 65536)) eqn:Ek.
         -- apply addr_eqb_spec in Ek. subst k. rewrite in_app_iff, Ila. cbn [In]. split; [intros [Hx|[Hx|[]]]; [exact Hx|]|tauto].
-           destruct a; cbn in *; congruence.
+           congruence.
         -- apply Ila.
-  - intros k. cbn [laddrs]. unfold listen_key. cbn [c_lport]. destruct (snd a =? 0) eqn:E0; [apply Ilnd|].
-    rewrite getl_laddrs_add. destruct (addr_eqb k (fst a, snd a)) eqn:Ek; [|apply Ilnd].
+  - intros k. cbn [laddrs]. unfold listen_key. cbn [c_lport]. destruct (snd a mod 65536 =? 0) eqn:E0; [apply Ilnd|].
+    rewrite getl_laddrs_add. destruct (addr_eqb k (fst a, snd a mod 65536)) eqn:Ek; [|apply Ilnd].
     apply NoDup_snoc; [apply Ilnd|]. rewrite Ila, Hat. discriminate.
   - cbn [laddrs]. apply laddrs_add_ne. exact Ilne.
   - intros x. rewrite conn_at_aset. destruct (addr_eqb x a); [cbn; discriminate|apply Iinc].
